@@ -14,8 +14,8 @@
    as nanosecond mtimes and as datetime microseconds).  A file mtime may be any tick; a sqlite `last_modified`
    value, a `mktime` result and an ISO `time:` threshold are whole seconds (multiples of Q).
 
-   Content.  The content of a tile is an integer; the k-th upstream request of a run (k = number of requests
-   issued before it) answers with an image whose every tile has content k.
+   Content.  The content of a tile is an integer (its colour: all tiles are single colour images); an upstream
+   answer `UOk _ _ v` is an image whose every tile has content v.
 
    No proofs in this file. *)
 From Coq Require Import ZArith List Bool.
@@ -51,7 +51,10 @@ Record mgr := mkMgr {
   m_refresh_before : option rconf;   (* _refresh_before; None = {} (falsy) *)
   m_expire : option Z;               (* _expire_timestamp in ticks (seed / cleanup task), None = no rule *)
   m_meta : bool;                     (* meta_grid is set *)
-  m_floor_store : bool               (* back-end stores whole seconds (sqlite datetime) / exact instant (file mtime) *)
+  m_floor_store : bool;              (* back-end stores whole seconds (sqlite datetime) / exact instant (file mtime) *)
+  m_filter : Z;                      (* pre_store_filter: a created tile with content v is replaced by a new image with
+                                        content v + m_filter (0 = no filter) *)
+  m_link : bool                      (* FileCache(link_single_color_images=symlink); recorded only: stores behave alike *)
 }.
 
 (* what a request reads from outside: the clock and the mtime of the reference file *)
@@ -60,11 +63,14 @@ Record env := mkEnv { now : Z; ref_mtime : option Z }.
 Inductive thr := ThrNone | ThrAt (t : Z) | ThrErr.
 
 Inductive outcome :=
-  | UOk (cacheable authorize_stale : bool)   (* an image (possibly produced by an on_error handler) *)
+  | UOk (cacheable authorize_stale : bool) (content : Z)  (* an image (possibly produced by an on_error handler) *)
   | UErr                                     (* SourceError *)
-  | UBlank.                                  (* BlankImage *)
+  | UBlank                                   (* BlankImage *)
+  | UBroken.                                 (* 200 OK and image headers, but the body breaks when it is read (the
+                                                response is wrapped unread in an ImageSource; it is read by the
+                                                pre-store filter, the meta tile splitter or tile_buffer in the store) *)
 
-Inductive err := ECfg | ESource.
+Inductive err := ECfg | ESource | EBody.
 Inductive result := Served (l : list (option Z)) | Raised (e : err).
 
 (* state that survives a request: the cache and the upstream log (newest first); an entry of the log is the
@@ -123,7 +129,24 @@ Definition store_ts (m : mgr) (ev : env) : Z := if m_floor_store m then floor_se
 
 (* the upstream script: answer of the k-th upstream request of the run *)
 Definition next_outcome (sc : nat -> outcome) (s : st) : outcome := sc (length (s_log s)).
-Definition next_content (s : st) : Z := Z.of_nat (length (s_log s)).
+
+(* TileManager.apply_tile_filter on a freshly created tile (tile.stored is False) *)
+Definition apply_tile_filter (m : mgr) (v : Z) : Z := v + m_filter m.
+
+(* cache.store_tile at the instant of the request.  File cache (_store): tile_buffer reads the image, then
+   write_atomic (temporary file + rename) replaces the tile: all or nothing.  mbtiles: INSERT OR REPLACE.  Linked
+   single colour tiles in symlink mode (_store_single_color_tile): a new symlink is created under a temporary name
+   and renamed over the tile location - the tile's own (lstat) time stamp is the instant of the store, whatever the
+   age of the shared colour file.  So for all modelled back-ends a store is a replacement of the entry.  (Hard link
+   mode is outside the model: hard links share the inode and its mtime.) *)
+Definition store_tile (m : mgr) (ev : env) (c : cache) (a : addr) (v : Z) : cache :=
+  put c a (mkEntry v (store_ts m ev)).
+
+Fixpoint store_tiles (m : mgr) (ev : env) (c : cache) (l : list addr) (v : Z) : cache :=
+  match l with
+  | [] => c
+  | a :: r => store_tiles m ev (store_tile m ev c a v) r v
+  end.
 
 Inductive step := Cont (s : st) (created : list (addr * option Z)) | Stop (s : st) (e : err).
 
@@ -133,7 +156,6 @@ Definition create_single (m : mgr) (ev : env) (sc : nat -> outcome) (s : st) (a 
   | None => Stop s ECfg
   | Some true => Cont s [(a, content_of (s_cache s) a)]           (* else: self.cache.load_tile(tile) *)
   | Some false =>
-      let k := next_content s in
       let s1 := mkSt (s_cache s) ([a] :: s_log s) in              (* _query_sources *)
       match next_outcome sc s with
       | UErr =>
@@ -143,9 +165,12 @@ Definition create_single (m : mgr) (ev : env) (sc : nat -> outcome) (s : st) (a 
           | Some false => Stop s1 ESource                         (* reraise *)
           end
       | UBlank => Cont s1 []
-      | UOk cacheable auth =>
-          let fresh := Cont (mkSt (if cacheable then put (s_cache s) a (mkEntry k (store_ts m ev)) else s_cache s)
-                                  (s_log s1)) [(a, Some k)] in
+      | UBroken => Stop s1 EBody                                  (* raised by the filter or inside store_tile *)
+      | UOk cacheable auth v0 =>
+          let v := apply_tile_filter m v0 in
+          (* the store decision is source.cacheable of the upstream answer, not of the filtered tile *)
+          let fresh := Cont (mkSt (if cacheable then store_tile m ev (s_cache s) a v else s_cache s) (s_log s1))
+                            [(a, Some v)] in
           if auth then
             match tm_is_stale m ev (s_cache s) a with
             | None => Stop s1 ECfg
@@ -179,14 +204,15 @@ Definition create_meta (m : mgr) (ev : env) (sc : nat -> outcome) (s : st) (mt :
   | None => Stop s ECfg
   | Some true => Cont s (map (fun a => (a, content_of (s_cache s) a)) mt)
   | Some false =>
-      let k := next_content s in
       let s1 := mkSt (s_cache s) (mt :: s_log s) in
       match next_outcome sc s with
       | UErr => Stop s1 ESource                                   (* no stale fallback on this path *)
       | UBlank => Cont s1 []
-      | UOk cacheable _ =>
-          Cont (mkSt (if cacheable then put_all (s_cache s) mt (mkEntry k (store_ts m ev)) else s_cache s) (s_log s1))
-               (map (fun a => (a, Some k)) mt)
+      | UBroken => Stop s1 EBody                                  (* split_meta_tiles reads the image *)
+      | UOk cacheable _ v0 =>
+          let v := apply_tile_filter m v0 in
+          Cont (mkSt (if cacheable then store_tiles m ev (s_cache s) mt v else s_cache s) (s_log s1))
+               (map (fun a => (a, Some v)) mt)
       end
   end.
 
@@ -326,11 +352,13 @@ Definition step_event (sc : nat -> outcome) (members : addr -> list addr) (w : w
   | EClock t => (mkWorld (w_mgr w) (mkEnv t (ref_mtime (w_env w))) (w_st w), OSilent)
   | ERefMtime t => (mkWorld (w_mgr w) (mkEnv (now (w_env w)) t) (w_st w), OSilent)
   | ERule rb ex =>
-      (mkWorld (mkMgr rb ex (m_meta (w_mgr w)) (m_floor_store (w_mgr w))) (w_env w) (w_st w), OSilent)
+      (mkWorld (mkMgr rb ex (m_meta (w_mgr w)) (m_floor_store (w_mgr w)) (m_filter (w_mgr w)) (m_link (w_mgr w)))
+               (w_env w) (w_st w), OSilent)
   | ESeed refresh skip mains =>
       (* seed_task: if task.refresh_timestamp is not None: tile_manager._expire_timestamp = refresh_timestamp *)
       let m' := match refresh with
                 | Some t => mkMgr (m_refresh_before (w_mgr w)) (Some t) (m_meta (w_mgr w)) (m_floor_store (w_mgr w))
+                                  (m_filter (w_mgr w)) (m_link (w_mgr w))
                 | None => w_mgr w
                 end in
       let '(s', handed, ok) := seed_walk m' (w_env w) sc members (w_st w) skip mains in
@@ -353,7 +381,7 @@ End WithQ.
 Definition optZ_eqb := opt_eqb Z.eqb.
 Definition optb_eqb := opt_eqb Bool.eqb.
 Definition err_eqb (a b : err) : bool :=
-  match a, b with ECfg, ECfg => true | ESource, ESource => true | _, _ => false end.
+  match a, b with ECfg, ECfg => true | ESource, ESource => true | EBody, EBody => true | _, _ => false end.
 Definition result_eqb (a b : result) : bool :=
   match a, b with
   | Served x, Served y => list_eqb optZ_eqb x y
@@ -370,7 +398,7 @@ Definition obs_eqb (a b : obs) : bool :=
   end.
 
 (* script from a list: requests beyond the list are answered with a cacheable image *)
-Definition script_of (l : list outcome) (k : nat) : outcome := nth k l (UOk true false).
+Definition script_of (l : list outcome) (k : nat) : outcome := nth k l (UOk true false (Z.of_nat k)).
 
 (* members function from an association list (tile -> tiles of its meta tile); a tile that is not listed is
    its own meta tile *)
